@@ -10,7 +10,7 @@
 (*     right after a D (one disconnect per ended attempt, one reset before *)
 (*     each retry); a client that has not been closed keeps resubscribing: *)
 (*     Subscribe (whose context is never cancelled here) does not return   *)
-(*     before Close has been called;                                       *)
+(*     before Close has been called or its own context is done;            *)
 (*   - on every stream Connected precedes all other notifications (a       *)
 (*     stream starts at "attempt"); update ids increase along a stream;    *)
 (*   - after Close returned, at most the notifications of one further      *)
@@ -70,10 +70,13 @@ TNoti ==
     /\ Cardinality(after') <= 1
     /\ UNCHANGED <<word, sub, closeRet, closeInv>>
 
+(* the context handed to Subscribe is done (deadline): as good as a Close for the Subscribe in progress *)
+TCtxDone == St("ctxdone") /\ closeInv' = TRUE /\ UNCHANGED <<word, sub, closeRet, connected, lastId, after>>
+
 TSrv == St("srv") /\ UNCHANGED <<word, sub, closeRet, connected, lastId, after, closeInv>>
 TFinal == St("final") /\ sub \in {"idle", "returned"} /\ UNCHANGED <<word, sub, closeRet, connected, lastId, after, closeInv>>
 
-TNext == TReset \/ TInv \/ TRet \/ TCb \/ TAttempt \/ TNoti \/ TSrv \/ TFinal
+TNext == TReset \/ TCtxDone \/ TInv \/ TRet \/ TCb \/ TAttempt \/ TNoti \/ TSrv \/ TFinal
 TSpec == TInit /\ [][TNext]_tvars
 
 Track == IF l > TLCGet(1) THEN TLCSet(1, l) ELSE TRUE
